@@ -97,7 +97,9 @@ def concatenate(signals, /, axis=0):
         axis += signals[0].ndim
 
     ref_sr = signals[0].sample_rate
-    if not all(u.isclose(ref_sr, s.sample_rate) for s in signals):
+    # Equal up to rounding: even a relative difference of 1e-6 is a drift of
+    # one sample over a piece of a million samples.
+    if not all(u.isclose(ref_sr, s.sample_rate, rtol=1e-12) for s in signals):
         raise ValueError("Signals must have the same sample_rate!")
 
     ref_st = None
